@@ -4,6 +4,7 @@
    These theorems extend the coverage of C02, C11, C19, C01 and C07 to whole builds. *)
 From KV Require Import Res.Pipeline Res.PipelineProofs Res.PipelineOrderProofs Res.PipelineFrameProofs Res.PipelineGenProofs Res.PipelinePermProofs.
 From KV Require Res.Generators Res.Hash.
+From KV Require Import Res.PipelineDictProofs.
 From KV Require Import Res.PipelineHashProofs Res.PipelineWfProofs Res.RenameProofs Res.C03Facts Res.NameRefProofs Res.BuildRefs Res.FsFacts.
 From KV Require Import Yaml.FieldSpecSpec Yaml.FieldSpecProofs.
 From KV Require Res.Labels Res.Hygiene.
@@ -106,3 +107,50 @@ Theorem C06P_invariance_transformers :
     Forall2 (fun r r' => content_of_node (r_node r') = content_of_node (r_node r) /\ r_needs_hash r' = r_needs_hash r) m m'.
 Proof. exact transformers_keep_content. Qed.
 Print Assumptions C06P_invariance_transformers.
+
+(* ---------- C06_dictionary over the integrated build: layering of generators on DOCUMENTS is the dictionary step ----------
+   [pdata_of n]: the data / binaryData maps of a document as C06 reads them.  Sources are the pipeline's: env-file
+   contents, literals, files with explicit or base-name keys, binary content (binaryData of ConfigMaps). *)
+
+(* what one generator entry declares is what its sources define (loader order env, literals, files; duplicate key = error) *)
+Theorem C06P_generator_declares :
+  forall secret g n, gen_node secret g = Ok n ->
+    exists kvs m, gen_pairs g = Ok kvs /\ Generators.validated_map kvs [] = Ok m /\ pdata_of n = decl_maps secret m.
+Proof. exact gen_node_pdata. Qed.
+Print Assumptions C06P_generator_declares.
+
+(* behavior: merge against the one matching resource of ANY resource map: the document put back carries C06's dictionary
+   merge [merge_dd] of the old and the declared maps (overlay wins, a key lives in one map).  Guard: the top-level keys of
+   the new document are distinct (true of every generated document: C06P_generated_keys_distinct). *)
+Theorem C06P_dictionary_merge_step :
+  forall nonstr m r m' i old,
+    top_unique (r_node r) ->
+    matching_any (cur_id pipe_cs r) 0 m = Ok [i] -> nth_error m i = Some old ->
+    Pipeline.absorb nonstr m Generators.BMerge r = Ok m' ->
+    exists r2, m' = replace_nth i r2 m /\
+               pdata_of (r_node r2) = GeneratorsProofs.merge_dd (pdata_of (r_node old)) (pdata_of (r_node r)).
+Proof. exact absorb_merge_pdata. Qed.
+Print Assumptions C06P_dictionary_merge_step.
+
+Theorem C06P_dictionary_replace_step :
+  forall nonstr m r m' i old,
+    matching_any (cur_id pipe_cs r) 0 m = Ok [i] -> nth_error m i = Some old ->
+    Pipeline.absorb nonstr m Generators.BReplace r = Ok m' ->
+    exists r1, m' = replace_nth i r1 m /\ pdata_of (r_node r1) = pdata_of (r_node r).
+Proof. exact absorb_replace_pdata. Qed.
+Print Assumptions C06P_dictionary_replace_step.
+
+(* the four error laws on documents *)
+Theorem C06P_dictionary_error_laws :
+  forall nonstr m r ms,
+    matching_any (cur_id pipe_cs r) 0 m = Ok ms ->
+    (ms = [] -> Pipeline.absorb nonstr m Generators.BMerge r = Err /\ Pipeline.absorb nonstr m Generators.BReplace r = Err) /\
+    (forall i, ms = [i] -> Pipeline.absorb nonstr m Generators.BCreate r = Err /\ Pipeline.absorb nonstr m Generators.BUnspecified r = Err) /\
+    (forall i j t b, ms = i :: j :: t -> Pipeline.absorb nonstr m b r = Err).
+Proof. exact absorb_errors_pdata. Qed.
+Print Assumptions C06P_dictionary_error_laws.
+
+Theorem C06P_generated_keys_distinct :
+  forall secret g n, gen_node secret g = Ok n -> top_unique n.
+Proof. exact (gen_node_unique (fun _ => false)). Qed.
+Print Assumptions C06P_generated_keys_distinct.
